@@ -495,7 +495,8 @@ func (e *SpecEnv) call(n *SCall) Val {
 		if g, ok := e.st.ghost[k]; ok {
 			return g
 		}
-		return Val{T: "0", S: "Int"}
+		specFail("ghostCount: no contract declares counter " + specSrc(n.Args[0]))
+		return Val{}
 	case "marked":
 		gk := "ghost.mark." + specSrc(n.Args[0])
 		x.u.regHeap(gk, "(Array Int Bool)")
@@ -504,6 +505,11 @@ func (e *SpecEnv) call(n *SCall) Val {
 	case "bigOf":
 		r := e.Eval(n.Args[0])
 		return Val{T: "(select " + x.getHeap(e.st, x.bigKey()) + " " + r.T + ")", S: "Int"}
+	case "errstr":
+		x.u.declSort("GoString")
+		x.need("errstr")
+		r := e.Eval(n.Args[0])
+		return Val{T: "(errstr " + r.T + ")", S: "GoString", Ty: types.Typ[types.String]}
 	case "nsent":
 		c := e.Eval(n.Args[0])
 		nk, _, _ := x.chanKeys(chanElem(c.Ty))
